@@ -367,6 +367,16 @@ def write_file(root, spec):
     elif fmt == "mat":
         from scipy.io import savemat
         m = spec.get("mat") or {}
+        if m.get("chan"):
+            # later exchange layout (`chan_names` + `data`): the time array is one of the channels, first, last or in between
+            tk = m.get("timekey", "Time")
+            chans, colsm = list(names), [np.array(c, dtype=float) for c in np_cols(spec)]
+            pos = dict(first=0, last=len(chans), middle=len(chans) // 2)[m["chan"]]
+            chans.insert(pos, tk)
+            colsm.insert(pos, t)
+            d = dict(chan_names=np.array(chans, dtype=object), data=np.column_stack(colsm), fs=2.0, comment="generated")
+            savemat(path, d)
+            return path
         d = {m.get("timekey", "Time"): t.astype(spec["tdtype"]) if spec.get("tdtype") else t}
         for nm, c in zip(names, np_cols(spec)):
             d[nm] = c
@@ -549,7 +559,7 @@ FEATS = dict(
     csv=["text_int", "text_exp", "semicolon", "tab", "timekey", "mag", "irregular", "n1"],
     h5=["ext", "scalar", "nested", "dtype", "mag"],
     pkl=["ext", "tuples", "dtype", "tint", "mag", "irregular", "n1"],
-    mat=["timekey", "extra", "dtype", "tint", "mag", "irregular"],
+    mat=["timekey", "extra", "dtype", "tint", "mag", "irregular", "chan"],
     tdms=["timech", "dtype", "mag", "irregular", "n1"])
 
 # files with a fixed set of features: always part of the quick tier
@@ -561,7 +571,7 @@ FEATURE_FILES = [
     ("csv", ["semicolon", "text_int", "timekey"]), ("csv", ["tab", "mag", "irregular"]), ("csv", ["n1"]),
     ("h5", ["ext", "scalar", "nested"]), ("h5", ["dtype", "mag"]),
     ("pkl", ["ext", "tuples", "dtype"]), ("pkl", ["tint", "mag", "irregular"]), ("pkl", ["n1"]),
-    ("mat", ["timekey", "extra", "dtype"]), ("mat", ["tint", "mag", "irregular"]),
+    ("mat", ["timekey", "extra", "dtype"]), ("mat", ["tint", "mag", "irregular"]), ("mat", ["chan"]), ("mat", ["chan", "timekey", "mag"]),
     ("tdms", ["timech", "dtype"]), ("tdms", ["mag", "irregular"]), ("tdms", ["n1", "timech"])]
 
 
@@ -665,6 +675,9 @@ def decorate(rng, sp, feats):
             sp["timekey"] = rng.choice([c for c in ["Time", "Time_s", "time[s]", "t"][:4 if fmt == "csv" else 3] if c not in sp["names"]])
     if "extra" in feats:
         sp["mat"] = dict(sp.get("mat") or {}, extra=True)
+    if "chan" in feats:
+        # the later exchange layout of the format: one matrix `data` (time step x channel) and the channel names in `chan_names`
+        sp["mat"] = dict(sp.get("mat") or {}, chan=rng.choice(["first", "last", "middle"]))
     if "ext" in feats:
         sp["ext"] = dict(h5="hdf5", pkl="pickle")[fmt]
     if "scalar" in feats:
@@ -1969,6 +1982,25 @@ def execute(specs, paths, ops, model=None, chk=None, inp=None, verbose=False, nr
             if held is not None and k in st8["keymap"] and not tainted(st8, k):
                 check_series(upto, st8["keymap"][k], (None, held.name, np.array(held.t), np.array(held.x)), how, st8)
 
+    def stray_audit(st8, upto, how):
+        """the register lists keys the harness did not expect (a call that should have been refused was accepted, or changed the
+        register): whatever the registry property says about that, every listed key that names a series of its file must still
+        hand out what the file stores under that name -- read here by full key, uncached, and compared with what the generator wrote"""
+        db = st8["db"]
+        for k in list(db.register_keys):
+            if k in st8["keymap"]:
+                continue
+            for fi, pth in enumerate(paths):
+                pre = pth + os.path.sep
+                if k.startswith(pre) and k[len(pre):] in specs[fi]["names"]:
+                    j = list(specs[fi]["names"]).index(k[len(pre):])
+                    try:
+                        ts = db.get(name=k, store=False)
+                    except Exception:       # noqa  (not retrievable: the registry property's business)
+                        break
+                    check_series(upto, (fi, j), (None, ts.name, np.array(ts.t), np.array(ts.x)), how, None)
+                    break
+
     def registry_op(st8, op, res, ldd, upto, who):
         """rename / clear: the registry changes between retrievals.  The harness follows it (which series is registered under which
         name at which index); the clauses are evaluated by the retrievals that come afterwards and by the audit of what is held."""
@@ -2004,6 +2036,7 @@ def execute(specs, paths, ops, model=None, chk=None, inp=None, verbose=False, nr
                 chk.disagree(d["stream"], d["input"], d["model"], d["impl"])
             if verbose:
                 print("register keys after", op, "\n  expected:", want, "\n  impl    :", have)
+            stray_audit(st8, upto, "listed by the database after %s%s" % (op[0], who))
         audit(st8, upto, "held by the database, after %s%s" % (op[0], who))
 
     def refused_op(st8, op, res, upto, who):
@@ -2024,6 +2057,7 @@ def execute(specs, paths, ops, model=None, chk=None, inp=None, verbose=False, nr
                 chk.disagree(d["stream"], d["input"], d["model"], d["impl"])
             if verbose:
                 print("register keys after", op, res, "\n  expected:", want, "\n  impl    :", have)
+            stray_audit(st8, upto, "listed by the database after a call that should have been refused (%s: %s)%s" % (op[1], res, who))
             raise Abandon()
         audit(st8, upto, "held by the database, after a call that it refused (%s: %s)%s" % (op[1], res, who))
 
@@ -2164,6 +2198,8 @@ def run(chk):
                     ".asc: every read lacks the first sample (known finding F15); the tie for .asc is evaluated modulo that shift"]
     rng = chk.rng
     drv = core.Driver()
+    from .c01_gaps import run_gaps
+    run_gaps(chk)               # files holding missing values (empty csv cells, nan in text / binary containers): value oracle
     root = tempfile.mkdtemp(prefix="qv01_")
     try:
         # ---- files
@@ -2382,6 +2418,9 @@ def run(chk):
 
 def replay(rp):
     inp = rp["input"]
+    if inp.get("kind") == "gaps":
+        from .c01_gaps import replay_gaps
+        return replay_gaps(inp)
     root = tempfile.mkdtemp(prefix="qv01r_")
     try:
         specs, ops = inp["specs"], inp["ops"]
